@@ -1,0 +1,255 @@
+//go:build verif
+
+package mp4
+
+// Property C01 (see verif_contracts_c01.go), box types Prft .. Trex.
+
+// ---- prft
+//@ spec prftPre(b *PrftBox, t uint64) uint64 = trApp(trApp(trApp(t, chU(32, vf(b.Version, b.Flags))), chU(32, b.ReferenceTrackID)), chU(64, uint64(b.NTPTimestamp)))
+//@ spec prftBody(b *PrftBox, t uint64) uint64 = ite(b.Version == 0, trApp(prftPre(b, t), chU(32, uint32(b.MediaTime))), trApp(prftPre(b, t), chU(64, b.MediaTime)))
+//@ func DecodePrftSR
+//@   ensures[C01] result1 == nil && sr.(*bits.FixedSliceReader).err == nil ==> ghost(sr).tr == prftBody(result0.(*PrftBox), old(ghost(sr).tr))
+//@ func (*PrftBox).EncodeSW
+//@   ensures[C01] result == nil && sw.(*bits.FixedSliceWriter).accError == nil ==> ghost(sw).tr == prftBody(b, trHdr(old(ghost(sw).tr), uint32(b.Size()), b.Type()))
+
+// ---- sbgp
+//@ spec rec sbgpTr(cnt []uint32, gdi []uint32, n int, t uint64) uint64 = ite(n <= 0, t, trApp(trApp(sbgpTr(cnt, gdi, n-1, t), chU(32, cnt[n-1])), chU(32, gdi[n-1])))
+//@ spec sbgpPreF(ver byte, flags uint32, gt string, gtp uint32, n uint32, t uint64) uint64 = trApp(ite(ver == 1, trApp(trApp(trApp(t, chU(32, vf(ver, flags))), chBytes(gt)), chU(32, gtp)), trApp(trApp(t, chU(32, vf(ver, flags))), chBytes(gt))), chU(32, n))
+//@ spec sbgpBody(b *SbgpBox, t uint64) uint64 = sbgpTr(b.SampleCounts, b.GroupDescriptionIndices, len(b.SampleCounts), sbgpPreF(b.Version, b.Flags, b.GroupingType, b.GroupingTypeParameter, uint32(len(b.SampleCounts)), t))
+// NOT PROVED (inv-pres:1 undecided: append re-allocates, frame lemma for sbgpTr not available; inv-init and post proved):
+//@ func DecodeSbgpSR
+//@   ensures[C01] result1 == nil && sr.(*bits.FixedSliceReader).err == nil ==> ghost(sr).tr == sbgpBody(result0.(*SbgpBox), old(ghost(sr).tr))
+//@   loop 1 invariant 0 <= i && len(b.SampleCounts) == i && len(b.GroupDescriptionIndices) == i
+//@   loop 1 invariant sr.(*bits.FixedSliceReader).err == nil ==> ghost(sr).tr == sbgpTr(b.SampleCounts, b.GroupDescriptionIndices, i, sbgpPreF(b.Version, b.Flags, b.GroupingType, b.GroupingTypeParameter, uint32(entryCount), old(ghost(sr).tr)))
+//@ func (*SbgpBox).EncodeSW
+//@   ensures[C01] result == nil && sw.(*bits.FixedSliceWriter).accError == nil ==> ghost(sw).tr == sbgpBody(b, trHdr(old(ghost(sw).tr), uint32(b.Size()), b.Type()))
+//@   loop 1 invariant sw.(*bits.FixedSliceWriter).accError == nil ==> ghost(sw).tr == sbgpTr(b.SampleCounts, b.GroupDescriptionIndices, i, sbgpPreF(b.Version, b.Flags, b.GroupingType, b.GroupingTypeParameter, uint32(len(b.SampleCounts)), trHdr(old(ghost(sw).tr), uint32(b.Size()), b.Type())))
+
+// ---- stco
+//@ spec rec u32sTr(xs []uint32, n int, t uint64) uint64 = ite(n <= 0, t, trApp(u32sTr(xs, n-1, t), chU(32, xs[n-1])))
+//@ spec stcoBody(b *StcoBox, t uint64) uint64 = u32sTr(b.ChunkOffset, len(b.ChunkOffset), trApp(trApp(t, chU(32, vf(b.Version, b.Flags))), chU(32, uint32(len(b.ChunkOffset)))))
+//@ func DecodeStcoSR
+//@   ensures[C01] result1 == nil && sr.(*bits.FixedSliceReader).err == nil ==> ghost(sr).tr == stcoBody(result0.(*StcoBox), old(ghost(sr).tr))
+//@   loop 1 invariant 0 <= i && len(b.ChunkOffset) == int(entryCount)
+//@   loop 1 invariant sr.(*bits.FixedSliceReader).err == nil ==> ghost(sr).tr == u32sTr(b.ChunkOffset, i, trApp(trApp(old(ghost(sr).tr), chU(32, vf(b.Version, b.Flags))), chU(32, entryCount)))
+//@ func (*StcoBox).EncodeSW
+//@   ensures[C01] result == nil && sw.(*bits.FixedSliceWriter).accError == nil ==> ghost(sw).tr == stcoBody(b, trHdr(old(ghost(sw).tr), uint32(b.Size()), b.Type()))
+//@   loop 1 invariant sw.(*bits.FixedSliceWriter).accError == nil ==> ghost(sw).tr == u32sTr(b.ChunkOffset, idx(1), trApp(trApp(trHdr(old(ghost(sw).tr), uint32(b.Size()), b.Type()), chU(32, vf(b.Version, b.Flags))), chU(32, uint32(len(b.ChunkOffset)))))
+
+// ---- smhd  (don't-care: 16 reserved bits; the decoder skips 2 bytes, the encoder writes a 16-bit zero: the body
+// function takes that 2-byte chunk as parameter)
+//@ spec smhdBody(b *SmhdBox, t uint64, rsv uint64) uint64 = trApp(trApp(trApp(t, chU(32, vf(b.Version, b.Flags))), chU(16, b.Balance)), rsv)
+//@ func DecodeSmhdSR
+//@   ensures[C01] result1 == nil && sr.(*bits.FixedSliceReader).err == nil ==> ghost(sr).tr == smhdBody(result0.(*SmhdBox), old(ghost(sr).tr), chU(0, uint64(2)))
+//@ func (*SmhdBox).EncodeSW
+//@   ensures[C01] result == nil && sw.(*bits.FixedSliceWriter).accError == nil ==> ghost(sw).tr == smhdBody(b, trHdr(old(ghost(sw).tr), uint32(b.Size()), b.Type()), chU(16, uint16(0)))
+
+// ---- SmDm
+//@ spec smdmBody(b *SmDmBox, t uint64) uint64 = trApp(trApp(trApp(trApp(trApp(trApp(trApp(trApp(trApp(trApp(trApp(trApp(t, chU(8, b.Version)), chU(24, b.Flags & 0xffffff)), chU(16, b.PrimaryRChromaticityX)), chU(16, b.PrimaryRChromaticityY)), chU(16, b.PrimaryGChromaticityX)), chU(16, b.PrimaryGChromaticityY)), chU(16, b.PrimaryBChromaticityX)), chU(16, b.PrimaryBChromaticityY)), chU(16, b.WhitePointChromaticityX)), chU(16, b.WhitePointChromaticityY)), chU(32, b.LuminanceMax)), chU(32, b.LuminanceMin))
+//@ func DecodeSmDmSR
+//@   ensures[C01] result1 == nil && sr.(*bits.FixedSliceReader).err == nil ==> ghost(sr).tr == smdmBody(result0.(*SmDmBox), old(ghost(sr).tr))
+//@ func (*SmDmBox).EncodeSW
+//@   ensures[C01] result == nil && sw.(*bits.FixedSliceWriter).accError == nil ==> ghost(sw).tr == smdmBody(b, trHdr(old(ghost(sw).tr), uint32(b.Size()), b.Type()))
+
+// ---- sthd
+//@ spec sthdBody(b *SthdBox, t uint64) uint64 = trApp(t, chU(32, vf(b.Version, b.Flags)))
+//@ func DecodeSthdSR
+//@   ensures[C01] result1 == nil && sr.(*bits.FixedSliceReader).err == nil ==> ghost(sr).tr == sthdBody(result0.(*SthdBox), old(ghost(sr).tr))
+//@ func (*SthdBox).EncodeSW
+//@   ensures[C01] result == nil && sw.(*bits.FixedSliceWriter).accError == nil ==> ghost(sw).tr == sthdBody(b, trHdr(old(ghost(sw).tr), uint32(b.Size()), b.Type()))
+
+// ---- styp
+//@ spec stypBody(b *StypBox, t uint64) uint64 = trApp(t, chBytes(b.data))
+//@ func DecodeStypSR
+//@   ensures[C01] result1 == nil && sr.(*bits.FixedSliceReader).err == nil ==> ghost(sr).tr == stypBody(result0.(*StypBox), old(ghost(sr).tr))
+//@ func (*StypBox).EncodeSW
+//@   ensures[C01] result == nil && sw.(*bits.FixedSliceWriter).accError == nil ==> ghost(sw).tr == stypBody(b, trHdr(old(ghost(sw).tr), uint32(b.Size()), b.Type()))
+
+// ---- tfdt
+//@ spec tfdtBody(b *TfdtBox, t uint64) uint64 = ite(b.Version == 0, trApp(trApp(t, chU(32, vf(b.Version, b.Flags))), chU(32, uint32(b.baseMediaDecodeTime))), trApp(trApp(t, chU(32, vf(b.Version, b.Flags))), chU(64, b.baseMediaDecodeTime)))
+//@ func DecodeTfdtSR
+//@   ensures[C01] result1 == nil && sr.(*bits.FixedSliceReader).err == nil ==> ghost(sr).tr == tfdtBody(result0.(*TfdtBox), old(ghost(sr).tr))
+//@ func (*TfdtBox).EncodeSW
+//@   ensures[C01] result == nil && sw.(*bits.FixedSliceWriter).accError == nil ==> ghost(sw).tr == tfdtBody(t, trHdr(old(ghost(sw).tr), uint32(t.Size()), t.Type()))
+
+// ---- trex
+//@ spec trexBody(b *TrexBox, t uint64) uint64 = trApp(trApp(trApp(trApp(trApp(trApp(t, chU(32, vf(b.Version, b.Flags))), chU(32, b.TrackID)), chU(32, b.DefaultSampleDescriptionIndex)), chU(32, b.DefaultSampleDuration)), chU(32, b.DefaultSampleSize)), chU(32, b.DefaultSampleFlags))
+//@ func DecodeTrexSR
+//@   ensures[C01] result1 == nil && sr.(*bits.FixedSliceReader).err == nil ==> ghost(sr).tr == trexBody(result0.(*TrexBox), old(ghost(sr).tr))
+//@ func (*TrexBox).EncodeSW
+//@   ensures[C01] result == nil && sw.(*bits.FixedSliceWriter).accError == nil ==> ghost(sw).tr == trexBody(b, trHdr(old(ghost(sw).tr), uint32(b.Size()), b.Type()))
+
+// ---- stss
+//@ spec stssBody(b *StssBox, t uint64) uint64 = u32sTr(b.SampleNumber, len(b.SampleNumber), trApp(trApp(t, chU(32, vf(b.Version, b.Flags))), chU(32, uint32(len(b.SampleNumber)))))
+//@ func DecodeStssSR
+//@   ensures[C01] result1 == nil && sr.(*bits.FixedSliceReader).err == nil ==> ghost(sr).tr == stssBody(result0.(*StssBox), old(ghost(sr).tr))
+//@   loop 1 invariant 0 <= i && len(b.SampleNumber) == int(entryCount)
+//@   loop 1 invariant sr.(*bits.FixedSliceReader).err == nil ==> ghost(sr).tr == u32sTr(b.SampleNumber, i, trApp(trApp(old(ghost(sr).tr), chU(32, vf(b.Version, b.Flags))), chU(32, entryCount)))
+//@ func (*StssBox).EncodeSW
+//@   ensures[C01] result == nil && sw.(*bits.FixedSliceWriter).accError == nil ==> ghost(sw).tr == stssBody(b, trHdr(old(ghost(sw).tr), uint32(b.Size()), b.Type()))
+//@   loop 1 invariant sw.(*bits.FixedSliceWriter).accError == nil ==> ghost(sw).tr == u32sTr(b.SampleNumber, idx(1), trApp(trApp(trHdr(old(ghost(sw).tr), uint32(b.Size()), b.Type()), chU(32, vf(b.Version, b.Flags))), chU(32, uint32(len(b.SampleNumber)))))
+
+// ---- stts
+//@ spec rec sttsTr(cnt []uint32, dlt []uint32, n int, t uint64) uint64 = ite(n <= 0, t, trApp(trApp(sttsTr(cnt, dlt, n-1, t), chU(32, cnt[n-1])), chU(32, dlt[n-1])))
+//@ spec sttsBody(b *SttsBox, t uint64) uint64 = sttsTr(b.SampleCount, b.SampleTimeDelta, len(b.SampleCount), trApp(trApp(t, chU(32, vf(b.Version, b.Flags))), chU(32, uint32(len(b.SampleCount)))))
+//@ func DecodeSttsSR
+//@   ensures[C01] result1 == nil && sr.(*bits.FixedSliceReader).err == nil ==> ghost(sr).tr == sttsBody(result0.(*SttsBox), old(ghost(sr).tr))
+//@   loop 1 invariant 0 <= i && len(b.SampleCount) == int(entryCount) && len(b.SampleTimeDelta) == int(entryCount)
+//@   loop 1 invariant sr.(*bits.FixedSliceReader).err == nil ==> ghost(sr).tr == sttsTr(b.SampleCount, b.SampleTimeDelta, i, trApp(trApp(old(ghost(sr).tr), chU(32, vf(b.Version, b.Flags))), chU(32, entryCount)))
+//@ func (*SttsBox).EncodeSW
+//@   ensures[C01] result == nil && sw.(*bits.FixedSliceWriter).accError == nil ==> ghost(sw).tr == sttsBody(b, trHdr(old(ghost(sw).tr), uint32(b.Size()), b.Type()))
+//@   loop 1 invariant sw.(*bits.FixedSliceWriter).accError == nil ==> ghost(sw).tr == sttsTr(b.SampleCount, b.SampleTimeDelta, idx(1), trApp(trApp(trHdr(old(ghost(sw).tr), uint32(b.Size()), b.Type()), chU(32, vf(b.Version, b.Flags))), chU(32, uint32(len(b.SampleCount)))))
+
+// ---- stsz
+//@ spec stszPreF(ver byte, flags uint32, uni uint32, t uint64) uint64 = trApp(trApp(t, chU(32, vf(ver, flags))), chU(32, uni))
+//@ spec stszBody(b *StszBox, t uint64) uint64 = ite(len(b.SampleSize) == 0, trApp(stszPreF(b.Version, b.Flags, b.SampleUniformSize, t), chU(32, b.SampleNumber)), u32sTr(b.SampleSize, len(b.SampleSize), trApp(stszPreF(b.Version, b.Flags, b.SampleUniformSize, t), chU(32, uint32(len(b.SampleSize))))))
+//@ func DecodeStszSR
+//@   ensures[C01] result1 == nil && sr.(*bits.FixedSliceReader).err == nil ==> ghost(sr).tr == stszBody(result0.(*StszBox), old(ghost(sr).tr))
+//@   loop 1 invariant 0 <= i && len(b.SampleSize) == int(b.SampleNumber) && b.SampleUniformSize == 0
+//@   loop 1 invariant sr.(*bits.FixedSliceReader).err == nil ==> ghost(sr).tr == u32sTr(b.SampleSize, i, trApp(stszPreF(b.Version, b.Flags, b.SampleUniformSize, old(ghost(sr).tr)), chU(32, b.SampleNumber)))
+//@ func (*StszBox).EncodeSW
+//@   ensures[C01] result == nil && sw.(*bits.FixedSliceWriter).accError == nil ==> ghost(sw).tr == stszBody(b, trHdr(old(ghost(sw).tr), uint32(b.Size()), b.Type()))
+//@   loop 1 invariant sw.(*bits.FixedSliceWriter).accError == nil ==> ghost(sw).tr == u32sTr(b.SampleSize, idx(1), trApp(stszPreF(b.Version, b.Flags, b.SampleUniformSize, trHdr(old(ghost(sw).tr), uint32(b.Size()), b.Type())), chU(32, uint32(len(b.SampleSize)))))
+
+// ---- sdtp
+//@ spec rec sdtpTr(es []SdtpEntry, n int, t uint64) uint64 = ite(n <= 0, t, trApp(sdtpTr(es, n-1, t), chU(8, uint8(es[n-1]))))
+//@ spec sdtpBody(b *SdtpBox, t uint64) uint64 = sdtpTr(b.Entries, len(b.Entries), trApp(t, chU(32, vf(b.Version, b.Flags))))
+//@ func DecodeSdtpSR
+//@   ensures[C01] result1 == nil && sr.(*bits.FixedSliceReader).err == nil ==> ghost(sr).tr == sdtpBody(result0.(*SdtpBox), old(ghost(sr).tr))
+//@   loop 1 invariant sr.(*bits.FixedSliceReader).err == nil ==> ghost(sr).tr == sdtpTr(entries, idx(1), trApp(old(ghost(sr).tr), chU(32, versionAndFlags)))
+//@ func (*SdtpBox).EncodeSW
+//@   ensures[C01] result == nil && sw.(*bits.FixedSliceWriter).accError == nil ==> ghost(sw).tr == sdtpBody(b, trHdr(old(ghost(sw).tr), uint32(b.Size()), b.Type()))
+//@   loop 1 invariant sw.(*bits.FixedSliceWriter).accError == nil ==> ghost(sw).tr == sdtpTr(b.Entries, idx(1), trApp(trHdr(old(ghost(sw).tr), uint32(b.Size()), b.Type()), chU(32, vf(b.Version, b.Flags))))
+
+// ---- schm  (uses the definitional trace clause for ReadZeroTerminatedString in bits/verif_contracts_c01b.go)
+//@ spec schmPre(b *SchmBox, t uint64) uint64 = trApp(trApp(trApp(t, chU(32, vf(b.Version, b.Flags))), chBytes(b.SchemeType)), chU(32, b.SchemeVersion))
+//@ spec schmBody(b *SchmBox, t uint64) uint64 = ite(b.Flags&0x01 != 0, trApp(trApp(schmPre(b, t), chBytes(b.SchemeURI)), chU(8, uint8(0))), schmPre(b, t))
+//@ func DecodeSchmSR
+//@   ensures[C01] result1 == nil && sr.(*bits.FixedSliceReader).err == nil ==> ghost(sr).tr == schmBody(result0.(*SchmBox), old(ghost(sr).tr))
+//@ func (*SchmBox).EncodeSW
+//@   ensures[C01] result == nil && sw.(*bits.FixedSliceWriter).accError == nil ==> ghost(sw).tr == schmBody(b, trHdr(old(ghost(sw).tr), uint32(b.Size()), b.Type()))
+
+// ---- tenc  (don't-care: reserved byte after the version/flags word; for version 0 also the second reserved byte)
+//@ spec tencPre(b *TencBox, t uint64, r1 uint8, r2 uint8) uint64 = trApp(trApp(trApp(trApp(trApp(trApp(t, chU(32, vf(b.Version, b.Flags))), chU(8, r1)), chU(8, ite(b.Version == 0, r2, b.DefaultCryptByteBlock<<4 | b.DefaultSkipByteBlock))), chU(8, b.DefaultIsProtected)), chU(8, b.DefaultPerSampleIVSize)), chBytes(b.DefaultKID))
+//@ spec tencBody(b *TencBox, t uint64, r1 uint8, r2 uint8) uint64 = ite(b.DefaultIsProtected == 1 && b.DefaultPerSampleIVSize == 0, trApp(trApp(tencPre(b, t, r1, r2), chU(8, byte(len(b.DefaultConstantIV)))), chBytes(b.DefaultConstantIV)), tencPre(b, t, r1, r2))
+//@ func DecodeTencSR
+//@   ensures[C01] result1 == nil && sr.(*bits.FixedSliceReader).err == nil ==> exists r1 uint8 :: exists r2 uint8 :: ghost(sr).tr == tencBody(result0.(*TencBox), old(ghost(sr).tr), r1, r2)
+//@ func (*TencBox).EncodeSW
+//@   ensures[C01] result == nil && sw.(*bits.FixedSliceWriter).accError == nil ==> ghost(sw).tr == tencBody(b, trHdr(old(ghost(sw).tr), uint32(b.Size()), b.Type()), uint8(0), uint8(0))
+
+// ---- tkhd  (don't-care: reserved 4 + 8 + 2 bytes, skipped / written as zero bytes. The 36-byte matrix is NOT reserved:
+// the decoder skips it and the encoder writes the unity matrix; the body function takes that chunk as parameter: FINDING)
+//@ spec tkhdHead(b *TkhdBox, t uint64) uint64 = ite(b.Version == 1, trApp(trApp(trApp(trApp(trApp(trApp(t, chU(32, vf(b.Version, b.Flags))), chU(64, b.CreationTime)), chU(64, b.ModificationTime)), chU(32, b.TrackID)), chU(0, uint64(4))), chU(64, b.Duration)), trApp(trApp(trApp(trApp(trApp(trApp(t, chU(32, vf(b.Version, b.Flags))), chU(32, uint32(b.CreationTime))), chU(32, uint32(b.ModificationTime))), chU(32, b.TrackID)), chU(0, uint64(4))), chU(32, uint32(b.Duration))))
+//@ spec tkhdBody(b *TkhdBox, t uint64, mx uint64) uint64 = trApp(trApp(trApp(trApp(trApp(trApp(trApp(trApp(tkhdHead(b, t), chU(0, uint64(8))), chU(16, uint16(b.Layer))), chU(16, uint16(b.AlternateGroup))), chU(16, uint16(b.Volume))), chU(0, uint64(2))), mx), chU(32, uint32(b.Width))), chU(32, uint32(b.Height)))
+//@ func DecodeTkhdSR
+//@   ensures[C01] result1 == nil && sr.(*bits.FixedSliceReader).err == nil ==> ghost(sr).tr == tkhdBody(result0.(*TkhdBox), old(ghost(sr).tr), chU(0, uint64(36)))
+// NOT PROVED (FINDING: fails for Version >= 2, the decoder uses the 32-bit layout unless Version == 1, the encoder the 64-bit layout unless Version == 0; proved when b.Version <= 1 is added to the premise):
+//@ func (*TkhdBox).EncodeSW
+//@   ensures[C01] result == nil && sw.(*bits.FixedSliceWriter).accError == nil ==> ghost(sw).tr == tkhdBody(b, trHdr(old(ghost(sw).tr), uint32(b.Size()), b.Type()), chU(1, uint64(0)))
+
+// ---- saiz  (decoder appends into a pre-sized slice)
+//@ spec rec u8sTr(xs []byte, n int, t uint64) uint64 = ite(n <= 0, t, trApp(u8sTr(xs, n-1, t), chU(8, xs[n-1])))
+//@ spec saizPreF(ver byte, flags uint32, ait string, aitp uint32, dsis byte, cnt uint32, t uint64) uint64 = trApp(trApp(ite(flags&0x01 != 0, trApp(trApp(trApp(t, chU(32, vf(ver, flags))), chBytes(ait)), chU(32, aitp)), trApp(t, chU(32, vf(ver, flags)))), chU(8, dsis)), chU(32, cnt))
+//@ spec saizBody(b *SaizBox, t uint64) uint64 = ite(b.DefaultSampleInfoSize == 0, u8sTr(b.SampleInfo, int(b.SampleCount), saizPreF(b.Version, b.Flags, b.AuxInfoType, b.AuxInfoTypeParameter, b.DefaultSampleInfoSize, b.SampleCount, t)), saizPreF(b.Version, b.Flags, b.AuxInfoType, b.AuxInfoTypeParameter, b.DefaultSampleInfoSize, b.SampleCount, t))
+// NOT PROVED (inv-pres:1 undecided: append; inv-init and post proved):
+//@ func DecodeSaizSR
+//@   ensures[C01] result1 == nil && sr.(*bits.FixedSliceReader).err == nil ==> ghost(sr).tr == saizBody(result0.(*SaizBox), old(ghost(sr).tr))
+//@   loop 1 invariant len(b.SampleInfo) == int(i) && i <= b.SampleCount && cap(b.SampleInfo) == int(b.SampleCount) && b.DefaultSampleInfoSize == 0
+//@   loop 1 invariant sr.(*bits.FixedSliceReader).err == nil ==> ghost(sr).tr == u8sTr(b.SampleInfo, int(i), saizPreF(b.Version, b.Flags, b.AuxInfoType, b.AuxInfoTypeParameter, b.DefaultSampleInfoSize, b.SampleCount, old(ghost(sr).tr)))
+// NOT PROVED (inv-pres:1 undecided: u8sTr reads the byte heap that WriteUint8 writes (no separation of b.SampleInfo from the writer buffer, no frame lemma)):
+//@ func (*SaizBox).EncodeSW
+//@   ensures[C01] result == nil && sw.(*bits.FixedSliceWriter).accError == nil ==> ghost(sw).tr == saizBody(b, trHdr(old(ghost(sw).tr), uint32(b.Size()), b.Type()))
+//@   loop 1 invariant i <= b.SampleCount
+//@   loop 1 invariant sw.(*bits.FixedSliceWriter).accError == nil ==> ghost(sw).tr == u8sTr(b.SampleInfo, int(i), saizPreF(b.Version, b.Flags, b.AuxInfoType, b.AuxInfoTypeParameter, b.DefaultSampleInfoSize, b.SampleCount, trHdr(old(ghost(sw).tr), uint32(b.Size()), b.Type())))
+
+// ---- saio  (decoder appends: decoder side blocked, see report)
+//@ spec rec saioTr32(xs []int64, n int, t uint64) uint64 = ite(n <= 0, t, trApp(saioTr32(xs, n-1, t), chU(32, uint32(int32(xs[n-1])))))
+//@ spec rec saioTr64(xs []int64, n int, t uint64) uint64 = ite(n <= 0, t, trApp(saioTr64(xs, n-1, t), chU(64, uint64(xs[n-1]))))
+//@ spec saioPreF(ver byte, flags uint32, ait string, aitp uint32, cnt uint32, t uint64) uint64 = trApp(ite(flags&0x01 != 0, trApp(trApp(trApp(t, chU(32, vf(ver, flags))), chBytes(ait)), chU(32, aitp)), trApp(t, chU(32, vf(ver, flags)))), chU(32, cnt))
+//@ spec saioBody(b *SaioBox, t uint64) uint64 = ite(b.Version == 0, saioTr32(b.Offset, len(b.Offset), saioPreF(b.Version, b.Flags, b.AuxInfoType, b.AuxInfoTypeParameter, uint32(len(b.Offset)), t)), saioTr64(b.Offset, len(b.Offset), saioPreF(b.Version, b.Flags, b.AuxInfoType, b.AuxInfoTypeParameter, uint32(len(b.Offset)), t)))
+// NOT PROVED (inv-pres:1/2 undecided: append; inv-init and post proved):
+//@ func DecodeSaioSR
+//@   ensures[C01] result1 == nil && sr.(*bits.FixedSliceReader).err == nil ==> ghost(sr).tr == saioBody(result0.(*SaioBox), old(ghost(sr).tr))
+//@   loop 1 invariant len(b.Offset) == int(i) && i <= entryCount && b.Version == 0
+//@   loop 1 invariant sr.(*bits.FixedSliceReader).err == nil ==> ghost(sr).tr == saioTr32(b.Offset, int(i), saioPreF(b.Version, b.Flags, b.AuxInfoType, b.AuxInfoTypeParameter, entryCount, old(ghost(sr).tr)))
+//@   loop 2 invariant len(b.Offset) == int(i) && i <= entryCount && b.Version != 0
+//@   loop 2 invariant sr.(*bits.FixedSliceReader).err == nil ==> ghost(sr).tr == saioTr64(b.Offset, int(i), saioPreF(b.Version, b.Flags, b.AuxInfoType, b.AuxInfoTypeParameter, entryCount, old(ghost(sr).tr)))
+//@ func (*SaioBox).EncodeSW
+//@   ensures[C01] result == nil && sw.(*bits.FixedSliceWriter).accError == nil ==> ghost(sw).tr == saioBody(b, trHdr(old(ghost(sw).tr), uint32(b.Size()), b.Type()))
+//@   loop 1 invariant 0 <= i
+//@   loop 1 invariant sw.(*bits.FixedSliceWriter).accError == nil ==> ghost(sw).tr == saioTr32(b.Offset, i, saioPreF(b.Version, b.Flags, b.AuxInfoType, b.AuxInfoTypeParameter, uint32(len(b.Offset)), trHdr(old(ghost(sw).tr), uint32(b.Size()), b.Type())))
+//@   loop 2 invariant 0 <= i
+//@   loop 2 invariant sw.(*bits.FixedSliceWriter).accError == nil ==> ghost(sw).tr == saioTr64(b.Offset, i, saioPreF(b.Version, b.Flags, b.AuxInfoType, b.AuxInfoTypeParameter, uint32(len(b.Offset)), trHdr(old(ghost(sw).tr), uint32(b.Size()), b.Type())))
+
+// ---- stsc  (decoder side blocked: the singleSampleDescriptionID compaction needs induction, see report)
+//@ spec rec stscTr(es []StscEntry, sdi []uint32, single uint32, n int, t uint64) uint64 = ite(n <= 0, t, trApp(trApp(trApp(stscTr(es, sdi, single, n-1, t), chU(32, es[n-1].FirstChunk)), chU(32, es[n-1].SamplesPerChunk)), chU(32, ite(single != 0, single, sdi[n-1]))))
+//@ spec stscBody(b *StscBox, t uint64) uint64 = stscTr(b.Entries, b.SampleDescriptionID, b.singleSampleDescriptionID, len(b.Entries), trApp(trApp(t, chU(32, vf(b.Version, b.Flags))), chU(32, uint32(len(b.Entries)))))
+//@ func (*StscBox).EncodeSW
+//@   ensures[C01] result == nil && sw.(*bits.FixedSliceWriter).accError == nil ==> ghost(sw).tr == stscBody(b, trHdr(old(ghost(sw).tr), uint32(b.Size()), b.Type()))
+//@   loop 1 invariant sw.(*bits.FixedSliceWriter).accError == nil ==> ghost(sw).tr == stscTr(b.Entries, b.SampleDescriptionID, b.singleSampleDescriptionID, idx(1), trApp(trApp(trHdr(old(ghost(sw).tr), uint32(b.Size()), b.Type()), chU(32, vf(b.Version, b.Flags))), chU(32, uint32(len(b.Entries)))))
+
+// ---- sidx  (don't-care: 16 reserved bits, skipped by the decoder / written as 16-bit zero: chunk parameter rsv)
+//@ spec rec sidxTr(rs []SidxRef, n int, t uint64) uint64 = ite(n <= 0, t, trApp(trApp(trApp(sidxTr(rs, n-1, t), chU(32, uint32(rs[n-1].ReferenceType)<<31 | rs[n-1].ReferencedSize)), chU(32, rs[n-1].SubSegmentDuration)), chU(32, (uint32(rs[n-1].StartsWithSAP) << 31) | (uint32(rs[n-1].SAPType) << 28) | rs[n-1].SAPDeltaTime)))
+//@ spec sidxHead(b *SidxBox, t uint64) uint64 = ite(b.Version == 0, trApp(trApp(trApp(trApp(trApp(t, chU(32, vf(b.Version, b.Flags))), chU(32, b.ReferenceID)), chU(32, b.Timescale)), chU(32, uint32(b.EarliestPresentationTime))), chU(32, uint32(b.FirstOffset))), trApp(trApp(trApp(trApp(trApp(t, chU(32, vf(b.Version, b.Flags))), chU(32, b.ReferenceID)), chU(32, b.Timescale)), chU(64, b.EarliestPresentationTime)), chU(64, b.FirstOffset)))
+//@ spec sidxBody(b *SidxBox, t uint64, rsv uint64) uint64 = sidxTr(b.SidxRefs, len(b.SidxRefs), trApp(trApp(sidxHead(b, t), rsv), chU(16, uint16(len(b.SidxRefs)))))
+// NOT PROVED (inv-pres:1 undecided: append; inv-init and post proved):
+//@ func DecodeSidxSR
+//@   ensures[C01] result1 == nil && sr.(*bits.FixedSliceReader).err == nil ==> ghost(sr).tr == sidxBody(result0.(*SidxBox), old(ghost(sr).tr), chU(0, uint64(2)))
+//@   loop 1 invariant 0 <= i && len(b.SidxRefs) == i
+//@   loop 1 invariant sr.(*bits.FixedSliceReader).err == nil ==> ghost(sr).tr == sidxTr(b.SidxRefs, i, trApp(trApp(sidxHead(b, old(ghost(sr).tr)), chU(0, uint64(2))), chU(16, refCount)))
+//@ func (*SidxBox).EncodeSW
+//@   ensures[C01] result == nil && sw.(*bits.FixedSliceWriter).accError == nil ==> ghost(sw).tr == sidxBody(b, trHdr(old(ghost(sw).tr), uint32(b.Size()), b.Type()), chU(16, uint16(0)))
+//@   loop 1 invariant sw.(*bits.FixedSliceWriter).accError == nil ==> ghost(sw).tr == sidxTr(b.SidxRefs, idx(1), trApp(trApp(sidxHead(b, trHdr(old(ghost(sw).tr), uint32(b.Size()), b.Type())), chU(16, uint16(0))), chU(16, uint16(len(b.SidxRefs)))))
+
+// ---- pssh  (decoder side blocked: UUID(string) conversion copies, append, empty Data; see report)
+//@ spec rec psshKids(ks []UUID, n int, t uint64) uint64 = ite(n <= 0, t, trApp(psshKids(ks, n-1, t), chBytes(ks[n-1])))
+//@ spec psshHead(b *PsshBox, t uint64) uint64 = ite(b.Version > 0, psshKids(b.KIDs, len(b.KIDs), trApp(trApp(trApp(t, chU(32, vf(b.Version, b.Flags))), chBytes(b.SystemID)), chU(32, uint32(len(b.KIDs))))), trApp(trApp(t, chU(32, vf(b.Version, b.Flags))), chBytes(b.SystemID)))
+//@ spec psshBody(b *PsshBox, t uint64) uint64 = trApp(trApp(psshHead(b, t), chU(32, uint32(len(b.Data)))), chBytes(b.Data))
+//@ func (*PsshBox).EncodeSW
+//@   ensures[C01] result == nil && sw.(*bits.FixedSliceWriter).accError == nil ==> ghost(sw).tr == psshBody(b, trHdr(old(ghost(sw).tr), uint32(b.Size()), b.Type()))
+//@   loop 1 invariant sw.(*bits.FixedSliceWriter).accError == nil ==> ghost(sw).tr == psshKids(b.KIDs, idx(1), trApp(trApp(trApp(trHdr(old(ghost(sw).tr), uint32(b.Size()), b.Type()), chU(32, vf(b.Version, b.Flags))), chBytes(b.SystemID)), chU(32, uint32(len(b.KIDs)))))
+
+// ---- ssix  (decoder side blocked: nested tables, see report)
+//@ spec rec ssixRanges(rs []SubSegmentRange, n int, t uint64) uint64 = ite(n <= 0, t, trApp(ssixRanges(rs, n-1, t), chU(32, uint32(rs[n-1]))))
+//@ spec rec ssixTr(ss []SubSegment, n int, t uint64) uint64 = ite(n <= 0, t, ssixRanges(ss[n-1].Ranges, len(ss[n-1].Ranges), trApp(ssixTr(ss, n-1, t), chU(32, uint32(len(ss[n-1].Ranges))))))
+//@ spec ssixBody(b *SsixBox, t uint64) uint64 = ssixTr(b.SubSegments, len(b.SubSegments), trApp(trApp(t, chU(32, vf(b.Version, b.Flags))), chU(32, uint32(len(b.SubSegments)))))
+// Size() has a loop: its value is pinned to a recursive sum so that the header chunk of the body trace is well defined.
+//@ spec rec ssixSz(ss []SubSegment, n int) uint64 = ite(n <= 0, uint64(0), ssixSz(ss, n-1) + 4 + uint64(len(ss[n-1].Ranges))*4)
+//@ func (*SsixBox).Size
+//@   ensures result == 16 + ssixSz(b.SubSegments, len(b.SubSegments))
+//@   assigns nothing
+//@   loop 1 invariant size == 16 + ssixSz(b.SubSegments, idx(1))
+//@ func (*SsixBox).EncodeSW
+//@   ensures[C01] result == nil && sw.(*bits.FixedSliceWriter).accError == nil ==> ghost(sw).tr == ssixBody(b, trHdr(old(ghost(sw).tr), uint32(b.Size()), b.Type()))
+//@   loop 1 invariant sw.(*bits.FixedSliceWriter).accError == nil ==> ghost(sw).tr == ssixTr(b.SubSegments, idx(1), trApp(trApp(trHdr(old(ghost(sw).tr), uint32(b.Size()), b.Type()), chU(32, vf(b.Version, b.Flags))), chU(32, uint32(len(b.SubSegments)))))
+//@   loop 2 invariant idx(1) < len(b.SubSegments) && ss.Ranges == b.SubSegments[idx(1)].Ranges
+//@   loop 2 invariant sw.(*bits.FixedSliceWriter).accError == nil ==> ghost(sw).tr == ssixRanges(ss.Ranges, idx(2), trApp(ssixTr(b.SubSegments, idx(1), trApp(trApp(trHdr(old(ghost(sw).tr), uint32(b.Size()), b.Type()), chU(32, vf(b.Version, b.Flags))), chU(32, uint32(len(b.SubSegments))))), chU(32, uint32(len(ss.Ranges)))))
+
+// ---- subs  (decoder side blocked: nested tables built with append, see report)
+//@ spec rec subsSamples(ss []SubsSample, ver byte, n int, t uint64) uint64 = ite(n <= 0, t, trApp(trApp(trApp(trApp(subsSamples(ss, ver, n-1, t), ite(ver == 1, chU(32, ss[n-1].SubsampleSize), chU(16, uint16(ss[n-1].SubsampleSize)))), chU(8, ss[n-1].SubsamplePriority)), chU(8, ss[n-1].Discardable)), chU(32, ss[n-1].CodecSpecificParameters)))
+//@ spec rec subsTr(es []SubsEntry, ver byte, n int, t uint64) uint64 = ite(n <= 0, t, subsSamples(es[n-1].SubSamples, ver, len(es[n-1].SubSamples), trApp(trApp(subsTr(es, ver, n-1, t), chU(32, es[n-1].SampleDelta)), chU(16, uint16(len(es[n-1].SubSamples))))))
+//@ spec subsBody(b *SubsBox, t uint64) uint64 = subsTr(b.Entries, b.Version, len(b.Entries), trApp(trApp(t, chU(32, vf(b.Version, b.Flags))), chU(32, uint32(len(b.Entries)))))
+//@ spec rec subsSz(es []SubsEntry, ver byte, n int) int = ite(n <= 0, 16, subsSz(es, ver, n-1) + 6 + ite(ver == 0, len(es[n-1].SubSamples) * 8, len(es[n-1].SubSamples) * 10))
+//@ func (*SubsBox).Size
+//@   ensures result == uint64(subsSz(b.Entries, b.Version, len(b.Entries)))
+//@   assigns nothing
+//@   loop 1 invariant size == subsSz(b.Entries, b.Version, idx(1))
+//@ func (*SubsBox).EncodeSW
+//@   ensures[C01] result == nil && sw.(*bits.FixedSliceWriter).accError == nil ==> ghost(sw).tr == subsBody(b, trHdr(old(ghost(sw).tr), uint32(b.Size()), b.Type()))
+//@   loop 1 invariant sw.(*bits.FixedSliceWriter).accError == nil ==> ghost(sw).tr == subsTr(b.Entries, b.Version, idx(1), trApp(trApp(trHdr(old(ghost(sw).tr), uint32(b.Size()), b.Type()), chU(32, vf(b.Version, b.Flags))), chU(32, uint32(len(b.Entries)))))
+//@   loop 2 invariant idx(1) < len(b.Entries) && e.SubSamples == b.Entries[idx(1)].SubSamples && e.SampleDelta == b.Entries[idx(1)].SampleDelta
+//@   loop 2 invariant sw.(*bits.FixedSliceWriter).accError == nil ==> ghost(sw).tr == subsSamples(e.SubSamples, b.Version, idx(2), trApp(trApp(subsTr(b.Entries, b.Version, idx(1), trApp(trApp(trHdr(old(ghost(sw).tr), uint32(b.Size()), b.Type()), chU(32, vf(b.Version, b.Flags))), chU(32, uint32(len(b.Entries))))), chU(32, e.SampleDelta)), chU(16, uint16(len(e.SubSamples)))))
+
+// ---- tfra  (don't-care: 26 reserved bits above the three length-size fields, parameter rsv; decoder side blocked: append)
+//@ spec tfraNum(sz byte, v uint32, t uint64) uint64 = ite(sz <= 3, trApp(t, ite(sz == 0, chU(8, byte(v)), ite(sz == 1, chU(16, uint16(v)), ite(sz == 2, chU(24, v & 0xffffff), chU(32, v))))), t)
+//@ spec rec tfraTr(es []TfraEntry, ver byte, s1 byte, s2 byte, s3 byte, n int, t uint64) uint64 = ite(n <= 0, t, tfraNum(s3, es[n-1].SampleNumber, tfraNum(s2, es[n-1].TrunNumber, tfraNum(s1, es[n-1].TrafNumber, trApp(trApp(tfraTr(es, ver, s1, s2, s3, n-1, t), ite(ver == 1, chU(64, es[n-1].Time), chU(32, uint32(es[n-1].Time)))), ite(ver == 1, chU(64, es[n-1].MoofOffset), chU(32, uint32(es[n-1].MoofOffset))))))))
+//@ spec tfraPreF(ver byte, flags uint32, tid uint32, s1 byte, s2 byte, s3 byte, cnt uint32, t uint64, rsv uint32) uint64 = trApp(trApp(trApp(trApp(t, chU(32, vf(ver, flags))), chU(32, tid)), chU(32, rsv<<6 | uint32(s1<<4 + s2<<2 + s3))), chU(32, cnt))
+//@ spec tfraBody(b *TfraBox, t uint64, rsv uint32) uint64 = tfraTr(b.Entries, b.Version, b.LengthSizeOfTrafNum, b.LengthSizeOfTrunNum, b.LengthSizeOfSampleNum, len(b.Entries), tfraPreF(b.Version, b.Flags, b.TrackID, b.LengthSizeOfTrafNum, b.LengthSizeOfTrunNum, b.LengthSizeOfSampleNum, uint32(len(b.Entries)), t, rsv))
+// NOT PROVED (inv-pres:1 and post undecided: append):
+//@ func DecodeTfraSR
+//@   ensures[C01] result1 == nil && sr.(*bits.FixedSliceReader).err == nil ==> exists rsv uint32 :: ghost(sr).tr == tfraBody(result0.(*TfraBox), old(ghost(sr).tr), rsv)
+//@   loop 1 invariant len(b.Entries) == int(i) && i <= nrEntries && cap(b.Entries) == int(nrEntries) && b.LengthSizeOfTrafNum <= 3 && b.LengthSizeOfTrunNum <= 3 && b.LengthSizeOfSampleNum <= 3
+//@   loop 1 invariant sr.(*bits.FixedSliceReader).err == nil ==> ghost(sr).tr == tfraTr(b.Entries, b.Version, b.LengthSizeOfTrafNum, b.LengthSizeOfTrunNum, b.LengthSizeOfSampleNum, int(i), tfraPreF(b.Version, b.Flags, b.TrackID, b.LengthSizeOfTrafNum, b.LengthSizeOfTrunNum, b.LengthSizeOfSampleNum, nrEntries, old(ghost(sr).tr), sizesBlock>>6))
+//@ func (*TfraBox).EncodeSW
+//@   ensures[C01] result == nil && sw.(*bits.FixedSliceWriter).accError == nil ==> ghost(sw).tr == tfraBody(b, trHdr(old(ghost(sw).tr), uint32(b.Size()), b.Type()), uint32(0))
+//@   loop 1 invariant sw.(*bits.FixedSliceWriter).accError == nil ==> ghost(sw).tr == tfraTr(b.Entries, b.Version, b.LengthSizeOfTrafNum, b.LengthSizeOfTrunNum, b.LengthSizeOfSampleNum, idx(1), tfraPreF(b.Version, b.Flags, b.TrackID, b.LengthSizeOfTrafNum, b.LengthSizeOfTrunNum, b.LengthSizeOfSampleNum, uint32(len(b.Entries)), trHdr(old(ghost(sw).tr), uint32(b.Size()), b.Type()), uint32(0)))
